@@ -593,3 +593,87 @@ func runC08MathAbsent(c *Ctx, r *Report, reg []*BIFEntry, rs *RetSum) {
 	}
 	r.Floor("R08.4b", "argument positions of binary and ternary math functions", n, 3)
 }
+
+// c08CompoundIsOperator (R08.10b): x op= y is x = x op y, nothing in between.
+func c08CompoundIsOperator(c *Ctx, r *Report) {
+	r.Rule("R08.10b", "x op= y is x = x op y: in the builder of compound assignments (the function that maps the compound operator to its base operator with compoundOpToBaseOp), the right-hand side stored in the assignment node is the binary operator node built for (x, y) itself — not a node wrapped around it that could decide, for some kinds of x, to bypass the operator's table (an unset x combined with an empty, string or boolean y goes through the table like every other pair)")
+	var builder *ssa.Function
+	for _, fn := range c.ModuleFunctions() {
+		if fn.Blocks == nil || fn.Pkg == nil || !strings.HasSuffix(fn.Pkg.Pkg.Path(), "/pkg/dsl/cst") {
+			continue
+		}
+		for _, b := range fn.Blocks {
+			for _, in := range b.Instrs {
+				if call, ok := in.(*ssa.Call); ok && strings.HasSuffix(CalleeName(&call.Call), ".compoundOpToBaseOp") {
+					builder = fn
+				}
+			}
+		}
+	}
+	if builder == nil {
+		r.Undecided("R08.10b", "compound-assignment builder", "", "no function calling compoundOpToBaseOp found")
+		return
+	}
+	// the operator node: first result of a call that takes the base operator (the result of compoundOpToBaseOp)
+	var opNode ssa.Value
+	for _, b := range builder.Blocks {
+		for _, in := range b.Instrs {
+			call, ok := in.(*ssa.Call)
+			if !ok {
+				continue
+			}
+			takesBase := false
+			for _, a := range call.Call.Args {
+				if bc, ok := a.(*ssa.Call); ok && strings.HasSuffix(CalleeName(&bc.Call), ".compoundOpToBaseOp") {
+					takesBase = true
+				}
+			}
+			if !takesBase {
+				continue
+			}
+			for _, ref := range *call.Referrers() {
+				if ex, ok := ref.(*ssa.Extract); ok && ex.Index == 0 {
+					opNode = ex
+				}
+			}
+		}
+	}
+	// the store into the assignment node's rvalue field
+	found, okStore := false, false
+	where := ""
+	for _, b := range builder.Blocks {
+		for _, in := range b.Instrs {
+			st, ok := in.(*ssa.Store)
+			if !ok {
+				continue
+			}
+			_, name, ok := fieldAddrName(st.Addr)
+			if !ok || !strings.Contains(strings.ToLower(name), "rvalue") {
+				continue
+			}
+			found = true
+			where = c.Rel(st.Pos())
+			v := st.Val
+			for {
+				if mi, ok := v.(*ssa.MakeInterface); ok {
+					v = mi.X
+					continue
+				}
+				if ci, ok := v.(*ssa.ChangeInterface); ok {
+					v = ci.X
+					continue
+				}
+				break
+			}
+			if opNode != nil && v == opNode {
+				okStore = true
+			}
+		}
+	}
+	if !found || opNode == nil {
+		r.Undecided("R08.10b", SSAName(builder), c.Rel(builder.Pos()), "the operator node or the store into the assignment node's right-hand side was not recognised")
+		return
+	}
+	r.Check(okStore, "R08.10b", SSAName(builder), where, "the operator node itself is the right-hand side",
+		SSAName(builder)+" stores something other than the binary operator node for (x, y) as the right-hand side of the compound assignment: x op= y no longer means x = x op y for every kind of x and y")
+}
